@@ -265,7 +265,8 @@ class CoordinateComponent(Component):
             # If the view is a tuple or list of arrays, we should actually just
             # convert these straight to world coordinates since the indices
             # of the pixel coordinates are the pixel coordinates themselves.
-            if isinstance(view, (tuple, list)) and len(view) > 0 and isinstance(view[0], np.ndarray):
+            if (isinstance(view, (tuple, list)) and len(view) == self._data.ndim and
+                    all(isinstance(v, np.ndarray) and v.dtype.kind in 'iu' for v in view)):
                 axis = self._data.ndim - 1 - self.axis
                 # (negative indices count from the end of the axis)
                 view = [np.where(v < 0, v + n, v) for v, n in zip(view, self._data.shape)]
